@@ -4,7 +4,8 @@
     loop and the truncating divisions; `toAbsSec` mirrors `ObsTime.toAbsTime`.
     The float path (fractional seconds, `ms = int(frac * 1000)`, `toAbsTime()` as a scalar, fractional and
     negative amounts in `addSec`, `__sub__`) is `Model/ObsTimeG.lean`; `Props/C03.lean` proves that in exact
-    arithmetic it reduces to the definitions of this file. -/
+    arithmetic it reduces to the definitions of this file. The `zone` attribute, `convertToZone`, the `Track` zone
+    methods and the identity of the objects the calls return are `Model/ObsTimeZone.lean`. -/
 namespace TV.ObsTime
 
 def isLeap (y : Nat) : Bool := y % 4 == 0 && (y % 100 != 0 || y % 400 == 0)
